@@ -23,7 +23,7 @@ LEVEL_TEXT = ("Lean 4 theorems about an executable model of the file and directo
 LEVEL_NOTE = ("Trusted: Lean kernel; axioms propext/Classical.choice/Quot.sound; the hash is a parameter with collision-freeness on the occurring "
               "streams as hypothesis, protobuf marshalling a parameter with a left-inverse hypothesis; os.RemoveAll/MkdirAll/Create/Symlink are "
               "assumed to behave as the pure FS functions (sampled by the tie). Not modelled: permission errors, special files, symlinks in the "
-              "ancestor chain of the destination or at a file output path, non-UTF-8 names (protobuf rejects them at write time), mode bits other "
+              "ancestor chain of the destination (the OS follows them; `Clear` excludes them), non-UTF-8 names (protobuf rejects them at write time), mode bits other "
               "than 'some executable bit set', the interleaving of the restore goroutines (only their joint result).")
 TECHNIQUE = "Lean 4 proof over an executable model + differential correspondence with the real output handlers + before/after listing oracle"
 PROP_MODULES = ["GrogModel.Props.C06", "GrogModel.Props.ComposeStores"]
@@ -39,7 +39,7 @@ OBLIGATIONS = [
 ]
 ASSUMPTIONS = [
     "hash collision-free on the occurring streams; protobuf Tree marshalling has a left inverse (hypotheses of the theorems)",
-    "ancestors of the destination are directories or absent (hypothesis ParentsOK); otherwise restore reports an error",
+    "ancestors of the destination are directories or absent (hypothesis Clear; symlinked ancestors are followed by the OS and not modelled); at the destination itself anything may sit",
     "the workspace is not modified by anything else while outputs are written or restored",
 ]
 
@@ -47,8 +47,8 @@ PKGS = ["", "p", "p/q", "pages/[slug]", S.proto("a b/ü*")]
 WSNAMES = ["ws", "ws", "clients/[acme]/w s", "a*b?c", S.proto("ünï/{x}/[1-9]"), "back\\slash"]
 DIR_IDS = ["out", "out/sub/dir", "dist", S.proto("öut/d ir"), "dist[debug]", "o*t/[a-z]"]
 FILE_IDS = ["f.txt", "out/sub/f.txt", "bin/tool", S.proto("dïr/a b.txt"), "gen[1]/f?.txt"]
-PRIORS_DIR = ["absent", "absent-parents", "same", "other-tree", "mutated", "file-at-dst", "empty-dir", "dangling-link-at-dst", "mutated"]
-PRIORS_FILE = ["absent", "absent-parents", "same", "modified", "truncated", "exec-flipped", "other-exec", "modified"]
+PRIORS_DIR = ["absent", "absent-parents", "same", "other-tree", "mutated", "file-at-dst", "empty-dir", "dangling-link-at-dst", "mutated", "link-to-same-dir", "link-to-other-dir"]
+PRIORS_FILE = ["absent", "absent-parents", "same", "modified", "truncated", "exec-flipped", "other-exec", "modified", "link-to-same-file", "link-to-other-file", "dangling-link-at-dst", "dir-at-dst"]
 
 
 def split(p):
@@ -84,6 +84,15 @@ def make_prior(rng, kind, ws, pkg, dst, cached):
         return S.put(ws, dst, D())
     if kind == "dangling-link-at-dst":
         return S.put(ws, dst, L("nowhere"))
+    if kind in ("link-to-same-dir", "link-to-other-dir"):
+        # a symbolic link sits at the directory output path; it points to a directory elsewhere in the workspace with the cached / another content
+        pr = S.put(ws, ["elsewhere-dir"], cached if kind == "link-to-same-dir" else S.mutate_tree(rng, cached))
+        return S.put(pr, dst, L("../" * (len(dst) - 1) + "elsewhere-dir"))
+    if kind in ("link-to-same-file", "link-to-other-file"):
+        pr = S.put(ws, ["elsewhere.txt"], cached if kind == "link-to-same-file" else F("precious, must not be touched", not cached[2]))
+        return S.put(pr, dst, L("../" * (len(dst) - 1) + "elsewhere.txt"))
+    if kind == "dir-at-dst":
+        return S.put(ws, dst, D(("in-the-way", F("x")), ("sub", D())))
     if kind == "modified":
         return S.put(ws, dst, F(cached[1] + "!", cached[2]))
     if kind == "truncated":
